@@ -37,6 +37,8 @@ CLAUSE_TEXT = {
     'T_NothingW1': 'communication in a world of one',
     'T_OncePerUpdate': 'factors not allreduced exactly once per update step '
                        '(or wrong element count / packing)',
+    'T_Match': 'members of a group issue different collective sequences on it',
+    'T_Members': 'collective issued on a group the rank (or the root) is not a member of',
     'HoldersOK': 'second-order data held by a rank that is not a gradient '
                  'worker (or missing on one that is)',
     'DesignOK': 'KfacDist derived protocol violates a clause (spec)',
